@@ -2,5 +2,6 @@
 SPECIFICATION Spec
 CONSTANTS
   Levels = {0, 1, 2, 3, 4, 5, 6, 7, 8, 9}
+  Groups = 64
 INVARIANTS Sound CompleteTx CompleteLatest GapReported FurthestLatest TsExcluded TsMonotone TsPrecise Binding TsFurthest
 CHECK_DEADLOCK FALSE
